@@ -144,6 +144,26 @@ def run(ctx):
                     row.insert(pos, rng.randint(0, 4))
             items.append((img, scheme, {}))
             meta.append(('extra', 'order_bits'))
+            # a pair under a memory budget that is just enough for batches of 4 cells of the base file: the
+            # number of genes in the file must not decide how the cells are batched
+            if b % 2 == 0:
+                tb = copy.deepcopy(base)
+                while len(tb['cells']) < 9:
+                    tb['cells'].append(200 + len(tb['cells']))
+                    tb['Q'].append([rng.randint(0, 9) for _ in tb['qgenes']])
+                tb['cfg'].update(P=1, chunk=4, enc='dense', max_gb=(32 * len(tb['qgenes']) + 1) / 2 ** 30)
+                ti = copy.deepcopy(tb)
+                for g in extra:
+                    pos = rng.randint(0, len(ti['qgenes']))
+                    ti['qgenes'].insert(pos, g)
+                    for row in ti['Q']:
+                        row.insert(pos, rng.randint(0, 4))
+                items.append((tb, scheme, {}))
+                meta.append(('base', None))
+                items.append((ti, scheme, {}))
+                meta.append(('extra', 'order_bits'))
+                items.append((base, scheme, {}))       # restore the plain base for the relations below
+                meta.append(('base', None))
             removable = [g for g in base['qgenes'] if g not in listed]
             if removable:
                 img = copy.deepcopy(base)
@@ -179,8 +199,9 @@ def run(ctx):
                 neg = copy.deepcopy(raw)
                 neg['cfg']['enc'] = enc
                 Xn = X.copy()
+                # a clearly negative count, or a negative value of tiny magnitude: both are negative
                 Xn[rng.randrange(len(Xn)), rng.randrange(Xn.shape[1]) if enc != 'dense_chunked' else Xn.shape[1] - 1] = \
-                    -1.0 * rng.randint(1, 3)
+                    rng.choice([-1.0 * rng.randint(1, 3), -5e-7, -1e-9])
                 neg['Qf'] = Xn.tolist()
                 items.append((neg, scheme, {}))
                 meta.append(('negative', enc))
